@@ -55,9 +55,14 @@ def run(ctx, chk, prop="C05"):
     # loop that overwrites what it already received delivers garbled packets and reads into the next exchange
     import rules_c04
     from report import Sub
-    sub = Sub(chk, "C05/transport", lambda r: r.startswith(("C04-a/", "C04-b/")))
+    sub = Sub(chk, "C05/transport", lambda r: r.startswith(("C04-a/", "C04-b/", "C04-d/")))
     rules_c04.run(ctx, sub)
-    chk.floor("read_packet obligations (shared with C04-a/b)", sub.count, 4)
+    chk.floor("read_packet / APDU header obligations (shared with C04-a/b/d)", sub.count, 6)
+    # what the client writes (commands, data blocks) is delimited by the APDU length field: the writer's forms (C16-b Adpu)
+    import rules_c16
+    sub16 = Sub(chk, "C05/transport", lambda r: r.startswith("C16-b/"), instance_filter=lambda i: str(i).startswith("Adpu"))
+    rules_c16.run(ctx, sub16)
+    chk.floor("APDU length-form obligations (shared with C16-b)", sub16.count, 4)
     # the data request of the firmware upload is answered with the block it asked for - if the block cannot be produced
     # (a read that insists on a full buffer at the tail of a file) the request stays unanswered (C11-c)
     import rules_c11
